@@ -550,6 +550,28 @@ func (env *Env) call(x *SCall) Value {
 			env.fail("skey: string (or integer) expected")
 		}
 		return intVal(k)
+	case "ikey":
+		// ikey(x): the abstract key under which x - an interface value, or a pointer that the code
+		// converts to an interface - is found in a map with interface-typed keys
+		v := env.eval(x.Args[0])
+		if v.Place != nil && v.Place.Kind == PLocal {
+			// a pointer to an object of this function: its heap reference if it has one; an
+			// object that never left the function has no reference anybody could have used as a
+			// key (an unconstrained one stands for it; evaluation must not change the state)
+			if _, done := env.st.promoted[v.Place.Cell]; done {
+				v = env.st.promote(v)
+			} else {
+				v = Value{Typ: v.Typ, L: []Term{env.enc.fresh("unpublished", SInt)}}
+			}
+		}
+		if _, isPtr := v.Typ.Underlying().(*types.Pointer); isPtr && len(v.L) == 1 {
+			v = Value{Typ: types.NewInterfaceType(nil, nil), L: []Term{env.enc.typeID(v.Typ), v.L[0]}}
+		}
+		k, ok := env.enc.mapKey(v)
+		if !ok || len(v.L) != 2 {
+			env.fail("ikey: interface value or pointer expected")
+		}
+		return intVal(k)
 	case "nobyte":
 		// nobyte(s, c, a, b): byte c does not occur in s[a:b). Stated over absolute positions of
 		// the underlying bytes, so that the fact carries over between a string and its substrings.
